@@ -189,6 +189,9 @@ fn case<S: Scheme>(ctx: &mut Ctx, rng: &mut ChaCha20Rng) {
         }),
         _ => op.polys(&tx).iter().any(|&i| !S::is_constant(tx.polys[i].polynomial())),
     };
+    // linear codes without the well-formedness challenge bind a proof through the column positions alone; for
+    // codewords of a few entries those coincide under two transcripts with noticeable probability
+    let nonconst = |op: &Op<S>| nonconst(op) && !op.polys(&tx).iter().all(|&i| S::transcript_binds_weakly(&tx.w, tx.polys[i].polynomial()));
     // (a) extra absorb before operation i on the verifier side
     {
         let i = below(rng, n);
@@ -202,7 +205,7 @@ fn case<S: Scheme>(ctx: &mut Ctx, rng: &mut ChaCha20Rng) {
             d["position"] = json!(i);
             ctx.check(!o.is_accept(), "different-prestate-rejected", "check", d, || json!({"outcome": o.json()}));
         } else {
-            ctx.skipped("different-prestate-rejected", "all polynomials of the operation are constant");
+            ctx.skipped("different-prestate-rejected", "all polynomials of the operation are constant (or bound through a few column positions only)");
         }
     }
     // (b) operation j (statement and proof) verified at position i != j
@@ -219,17 +222,86 @@ fn case<S: Scheme>(ctx: &mut Ctx, rng: &mut ChaCha20Rng) {
             d["moved"] = json!({"from": j, "to": i});
             ctx.check(!o.is_accept(), "moved-proof-rejected", "check", d, || json!({"outcome": o.json()}));
         } else {
-            ctx.skipped("moved-proof-rejected", "all polynomials of the operation are constant");
+            ctx.skipped("moved-proof-rejected", "all polynomials of the operation are constant (or bound through a few column positions only)");
         }
     }
     let _ = FOf::<S>::one();
 }
 
+/// The API accepts any `CryptographicSponge`: the same three-operation history (open, batch_open, open) on a
+/// Poseidon sponge over ANOTHER prime field than the scheme's scalar field (a smaller one where available, so that
+/// one challenge of full size costs more than one native element). Lock-step must not depend on the sponge field.
+fn foreign_sponge<S: Scheme, G: ark_ff::PrimeField>(ctx: &mut Ctx, rng: &mut ChaCha20Rng, gname: &str) {
+    let tx = match gen_tx::<S>(rng, false, 3) {
+        Ok(t) => t,
+        Err(_) => return ctx.skipped("baseline", "honest pipeline refused (reported under C01/C17)"),
+    };
+    let desc = json!({"tx": tx.json(), "sponge_field": gname});
+    let mut sp_p = crate::probe::sponge::<G>(&tx.pre);
+    let mut sp_v = crate::probe::sponge::<G>(&tx.pre);
+    let all: Vec<usize> = (0..tx.polys.len()).collect();
+    for step in 0..3 {
+        let ok = if step == 1 {
+            let q = gen_queries::<S>(&tx.w.cfg, &tx.polys, range(rng, 1, 3), rng);
+            let mut r = mon_rng(rng.next_u64());
+            match attempt(|| PcOf::<S>::batch_open(&tx.w.ck, tx.polys.iter(), tx.c.comms.iter(), &q.qs, &mut sp_p, tx.c.states.iter(), Some(&mut r))) {
+                Err(o) => Err(json!({"step": step, "batch_open": o.json()})),
+                Ok(p) => {
+                    let mut r = mon_rng(7);
+                    let o = decide(|| PcOf::<S>::batch_check(&tx.w.vk, tx.c.comms.iter(), &q.qs, &q.evals, &p, &mut sp_v, &mut r));
+                    if o == Out::Accept { Ok(()) } else { Err(json!({"step": step, "batch_check": o.json()})) }
+                }
+            }
+        } else {
+            let k = range(rng, 1, all.len().min(3));
+            let idx: Vec<usize> = permutation(all.len(), rng).into_iter().take(k).collect();
+            let z = S::gen_point(&tx.w.cfg, rng);
+            let polys: Vec<&LPoly<S>> = idx.iter().map(|&i| &tx.polys[i]).collect();
+            let comms: Vec<&LComm<S>> = idx.iter().map(|&i| &tx.c.comms[i]).collect();
+            let states: Vec<&StateOf<S>> = idx.iter().map(|&i| &tx.c.states[i]).collect();
+            let values: Vec<FOf<S>> = idx.iter().map(|&i| tx.polys[i].evaluate(&z)).collect();
+            let mut r = mon_rng(rng.next_u64());
+            match attempt(|| PcOf::<S>::open(&tx.w.ck, polys.clone(), comms.clone(), &z, &mut sp_p, states.clone(), Some(&mut r))) {
+                Err(o) => Err(json!({"step": step, "open": o.json()})),
+                Ok(p) => {
+                    let mut r = mon_rng(7);
+                    let o = decide(|| PcOf::<S>::check(&tx.w.vk, comms.clone(), &z, values.clone(), &p, &mut sp_v, Some(&mut r)));
+                    if o == Out::Accept { Ok(()) } else { Err(json!({"step": step, "check": o.json()})) }
+                }
+            }
+        };
+        if let Err(e) = ok {
+            return ctx.violated("lock-step-accept[foreign-field-sponge]", "check", desc, e);
+        }
+        let (fp, fv): (Vec<G>, Vec<G>) = (fingerprint(&sp_p), fingerprint(&sp_v));
+        if fp != fv {
+            return ctx.violated("lock-step-state[foreign-field-sponge]", "check", desc, json!({"step": step, "prover_events": sp_p.log.len(), "verifier_events": sp_v.log.len()}));
+        }
+    }
+    ctx.held("lock-step-accept[foreign-field-sponge]", desc.clone());
+    ctx.held("lock-step-state[foreign-field-sponge]", desc);
+}
+
 pub fn run(ctx: &mut Ctx) {
+    crate::schemes::set_custom_params(true);
     for_each_scheme!(ctx, S, {
         let n = ctx.n(100, 2000) / <S as Scheme>::WEIGHT.max(1);
         ctx.run_cases(<S as Scheme>::NAME, n.max(4), |ctx, _i, rng| case::<S>(ctx, rng));
     });
+    {
+        use crate::schemes::*;
+        type F381 = ark_bls12_381::Fr;
+        type F377 = ark_bls12_377::Fr;
+        let n = ctx.n(12, 200);
+        // Hyrax and the linear-code schemes absorb scalar-field ELEMENTS; ark-crypto-primitives casts those into the
+        // sponge field only when both fields have the same modulus (and aborts otherwise), so a foreign-field sponge
+        // is outside their domain. The schemes below absorb bytes only.
+        ctx.run_cases("marlin/sponge-jubjub-fr", n, |ctx, _i, rng| foreign_sponge::<MarlinS<E381>, JFr>(ctx, rng, "ed-on-bls12-381 Fr (252 bit)"));
+        ctx.run_cases("marlin/sponge-bls12-377-fr", n, |ctx, _i, rng| foreign_sponge::<MarlinS<E381>, F377>(ctx, rng, "bls12-377 Fr (253 bit)"));
+        ctx.run_cases("sonic/sponge-jubjub-fr", n, |ctx, _i, rng| foreign_sponge::<SonicS<E381>, JFr>(ctx, rng, "ed-on-bls12-381 Fr (252 bit)"));
+        ctx.run_cases("pst13/sponge-jubjub-fr", n / 2, |ctx, _i, rng| foreign_sponge::<Pst13S<E381>, JFr>(ctx, rng, "ed-on-bls12-381 Fr (252 bit)"));
+        ctx.run_cases("ipa/sponge-bls12-381-fr", n, |ctx, _i, rng| foreign_sponge::<IpaS, F381>(ctx, rng, "bls12-381 Fr (255 bit)"));
+    }
     // the same cases on configurations with more than a thousand coefficients
     crate::schemes::set_large(true);
     for_each_scheme!(ctx, S, {
